@@ -324,8 +324,8 @@ def run(ctx):
     for name, spec in SPEC.items():
         cls = model.cls(name)
         fn = model.own_method(name, "get_last_point")
-        f = check_fold(ctx, cls, fn, spec)
-        check_eval(ctx, cls, f)
+        f = ctx.attempt("R07-ARGMAX", cls.file, "%s.get_last_point" % name, "recommendation", check_fold, ctx, cls, fn, spec)
+        ctx.attempt("R07-EVAL", cls.file, name, "evaluated candidates", check_eval, ctx, cls, f)
     check_wrappers(ctx)
     import_once(ctx, list(SPEC))
     return dict(
